@@ -30,6 +30,9 @@ impl ErgDict {
     // @trusted: assumed contract of the hash set / hash map wrapper: get
     #[verifier::external_body]
     pub fn get(&self, k: &u64) -> (r: Option<&usize>) ensures match r { Some(v) => self@.contains_key(*k) && *v == self@[*k], None => !self@.contains_key(*k) } { self.inner.get(k) }
+    // @trusted: assumed contract of the hash set / hash map wrapper: contains_key
+    #[verifier::external_body]
+    pub fn contains_key(&self, k: &u64) -> (b: bool) ensures b == self@.contains_key(*k) { self.inner.contains_key(k) }
     // @trusted: assumed contract of the hash set / hash map wrapper: insert
     #[verifier::external_body]
     pub fn insert(&mut self, k: u64, v: usize) -> (r: Option<usize>) ensures final(self)@ == old(self)@.insert(k, v) { self.inner.insert(k, v) }
